@@ -433,7 +433,7 @@ func pollAndRelay(c *engine.Ctx) {
 
 // monitorStarted: C19.5. Every subscription on a southbound client gets its own response monitor.
 func monitorStarted(c *engine.Ctx) {
-	o := c.Custom("C19.5", "K-must(monitor)", "southbound client.Subscribe: every path starts `go c.run(ctx)` itself, unconditionally (not through a Once, a flag or a closure), after asking the backing client to subscribe",
+	o := c.Custom("C19.5", "K-must(monitor)", "southbound client.Subscribe: every path on which the backing client's Subscribe did not fail starts `go c.run(ctx)` itself (not through a Once, a flag or a closure), after asking the backing client to subscribe; a path on which it failed starts none",
 		"the monitor goroutine is the only reader of the backing client's responses: the connection manager shares one client per target, so a monitor started once ends with the first subscription and later streams to that target receive nothing")
 	defer o.Done(1)
 	ps, err := c.A.PathsOpt("pkg/southbound/gnmi", engine.PathOpts{Roots: []string{"southbound/gnmi.client.Subscribe"}, Exact: true, NoInline: true})
@@ -458,6 +458,24 @@ func monitorStarted(c *engine.Ctx) {
 		}
 		last := &p.Events[len(p.Events)-1]
 		o.Site(c.P.Pos(last.Pos) + " path of client.Subscribe")
+		// a path on which the backing subscribe failed has no stream to monitor (and must not start a
+		// reader on it, C12.11): the requirement is about the paths on which a stream was opened
+		failed := false
+		if sub >= 0 {
+			for _, l := range engine.CondsBefore(p, len(p.Events)-1) {
+				if l.L == "err("+p.Events[sub].Canon+")" && l.RNil && l.Mask == 5 {
+					failed = true
+				}
+			}
+		}
+		if failed {
+			if mon >= 0 {
+				o.Fail(&engine.Violation{Key: "southbound/gnmi.client.Subscribe|monitor started without a stream", Pos: c.P.Pos(p.Events[mon].Pos), Func: p.Root.Name(),
+					Msg: "the response monitor is started on a path where the backing subscribe failed: there is no stream, its first Recv dereferences nil"})
+				return
+			}
+			continue
+		}
 		switch {
 		case sub < 0:
 			o.Fail(&engine.Violation{Key: "southbound/gnmi.client.Subscribe|backing subscribe missing", Pos: c.P.Pos(last.Pos), Func: p.Root.Name(), Msg: "a path of Subscribe does not ask the backing client to subscribe"})
